@@ -146,7 +146,7 @@ def run_ch_job(job):
   elif verdicts:
     res.update(verdict="inconclusive", detail="; ".join(v[1] for v in verdicts))
   else:
-    res.update(verdict="error" if rc not in (0, 1, 124) else "inconclusive",
+    res.update(verdict="error" if (rc not in (0, 1, 124) or "CrossHairInternal" in err or "Traceback" in err) else "inconclusive",
                detail=("rc=%s " % rc) + (err.strip().splitlines()[-1] if err.strip() else "no output"))
   # path log
   ent = rea = 0; cur = False
